@@ -7,6 +7,13 @@ const F21: Shape = Shape::follower3(2, 1);
 const F21T: Shape = Shape::follower3(2, 1).with_terms(&[1, 2, 3]);
 const L21T: c14::LogShape = c14::LogShape { base: 0, n_stable: 2, n_unstable: 1, terms: &[1, 2, 3] };
 const F30: Shape = Shape::follower3(3, 0);
+const CAND3: Shape = Shape::follower3(3, 0).with_role(StateRole::Candidate).with_term(5).with_terms(&[1, 2, 3]).with_commit(1).with_votes(&[(1, true)]);
+const PRE3: Shape = Shape::follower3(3, 0).with_role(StateRole::PreCandidate).with_term(5).with_terms(&[1, 2, 3]).with_commit(1).with_votes(&[(1, true)]);
+const CAND5: Shape = CAND3.with_conf(&[1, 2, 3, 4, 5], &[], &[], &[], false);
+const CAND5_2: Shape = CAND5.with_votes(&[(1, true), (3, true)]);
+const CAND5_R: Shape = CAND5.with_votes(&[(1, true), (3, false), (4, false)]);
+const CANDJ: Shape = CAND3.with_conf(&[1, 2, 3], &[1, 3, 4], &[], &[], false);
+const CAND3_DUP: Shape = CAND3.with_votes(&[(1, true), (2, false)]);
 const L21: Shape = Shape::follower3(2, 1).with_role(StateRole::Leader);
 // leader scenarios: log terms [1,2,2] (2 stable + 1 unstable), term 2; indexes concrete, the rest symbolic
 const L21S: Shape = L21.with_terms(&[1, 2, 2]).with_term(2).with_flags(false, false, false);
@@ -213,6 +220,47 @@ harnesses! {
     { heartbeat_f21, "C05", quick, unwind = 10,
       "one Raft::step(MsgHeartbeat) on a follower: commit rule, echo of context, log untouched, stale-term reply rule",
       |s| c05::heartbeat_step(s, &F21) }
+    // ---------------- (pre)candidate: vote responses (C02 / C16) ----------------
+    { dbg_map, "DBG", quick, unwind = 8, "dbg", |s| c02::dbg_map(s) }
+    { dbg_map2, "DBG", quick, unwind = 8, "dbg", |s| c02::dbg_map2(s) }
+    { dbg_rec, "DBG", quick, unwind = 8, "dbg", |s| c02::dbg_rec(s, &CAND5) }
+    { dbg_tally, "DBG", quick, unwind = 8, "dbg", |s| c02::dbg_tally(s, &CAND5) }
+    { voteresp_win3, "C02,C16", quick, unwind = 8,
+      "candidate (3 voters, own vote recorded) receives a grant at its term -> leader; tally oracle; first append broadcast well-formed",
+      |s| c02::voteresp_step(s, &CAND3, 2, false, false, 5) }
+    { voteresp_pending5, "C02", quick, unwind = 8,
+      "candidate in a 5-voter group with only its own vote receives one grant -> still pending, nothing changes",
+      |s| c02::voteresp_step(s, &CAND5, 2, false, false, 5) }
+    { voteresp_win5, "C02", quick, unwind = 8,
+      "candidate in a 5-voter group with two votes receives the third grant -> leader",
+      |s| c02::voteresp_step(s, &CAND5_2, 2, false, false, 5) }
+    { voteresp_lose5, "C02", quick, unwind = 8,
+      "candidate in a 5-voter group with two rejections receives the third -> follower at the same term",
+      |s| c02::voteresp_step(s, &CAND5_R, 2, false, true, 5) }
+    { voteresp_joint_half, "C02,C12", quick, unwind = 8,
+      "candidate in joint config {1,2,3}&&{1,3,4}: grant from 2 wins the incoming half only -> must stay candidate",
+      |s| c02::voteresp_step(s, &CANDJ, 2, false, false, 5) }
+    { voteresp_dup_flip, "C02", quick, unwind = 8,
+      "candidate whose peer 2 already rejected receives a (duplicate) grant from 2 -> the first answer stands, no leader",
+      |s| c02::voteresp_step(s, &CAND3_DUP, 2, false, false, 5) }
+    { voteresp_wrong_kind, "C02,C16", quick, unwind = 8,
+      "candidate receives a stale pre-vote grant -> ignored",
+      |s| c02::voteresp_step(s, &CAND3, 2, true, false, 5) }
+    { voteresp_stale_term, "C02", quick, unwind = 8,
+      "candidate receives a grant stamped with an older term -> ignored",
+      |s| c02::voteresp_step(s, &CAND3, 2, false, false, 4) }
+    { voteresp_nonvoter, "C02", quick, unwind = 8,
+      "candidate receives a grant from an id that is not a voter -> does not count",
+      |s| c02::voteresp_step(s, &CAND3, 5, false, false, 5) }
+    { prevoteresp_win, "C16,C02", quick, unwind = 8,
+      "pre-candidate (term 5) receives a pre-vote grant stamped 6 -> candidate at term 6, real vote requests carry the true log position",
+      |s| c02::voteresp_step(s, &PRE3, 2, true, false, 6) }
+    { prevoteresp_reject_same, "C16", quick, unwind = 8,
+      "pre-candidate receives a rejection at its own term from one of two peers -> pending, term unchanged",
+      |s| c02::voteresp_step(s, &PRE3, 2, true, true, 5) }
+    { prevoteresp_reject_higher, "C16", quick, unwind = 8,
+      "pre-candidate receives a rejection carrying a higher term -> follower at that term (the only way its term rises without winning)",
+      |s| c02::voteresp_step(s, &PRE3, 2, true, true, 7) }
     // ---------------- leader: append responses (C04 / C13 / C10 / C17) ----------------
     { appresp_ack_probe, "C04,C13,C10,C17,C05,C01", quick, unwind = 8,
       "leader (3 voters, log 2 stable + 1 unstable, symbolic terms/commit/persisted/flags) receives an ack of index 2 from peer 2 in Probe state (matched 1, next 3): becomes Replicate, commit rule checked against a quorum oracle, emitted appends well-formed",
